@@ -185,10 +185,12 @@ Definition choose (n k : Z) : Z := zfact (Z.to_nat n) / (zfact (Z.to_nat k) * zf
 
 Fixpoint qpow (x : Q) (e : nat) : Q := match e with O => 1%Q | S e' => (x * qpow x e')%Q end.
 
-(* sum_{k=0}^{n//2} (-1)^k C(n,k) C(2n-2k,n) x^((n-2k)/2) * 0.5^n   (n even: the exponents are integers) *)
+(* sum_{k=0}^{n//2} (-1)^k C(n,k) C(2n-2k,n) x^((n-2k)/2) * 0.5^n   (n even: the exponents are integers).
+   [pn_coeffs n] lists, term by term of the loop, the signed integer factor and the exponent of x. *)
+Definition pn_coeffs (n : Z) : list (Z * nat) :=
+  map (fun k => ((if k mod 2 =? 0 then 1 else -1) * (choose n k * choose (2 * n - 2 * k) n), Z.to_nat ((n - 2 * k) / 2)))
+      (range (n / 2 + 1)).
+
 Definition P_n_even (x : Q) (n : Z) : Q :=
-  let terms := map (fun k =>
-      let factor := inject_Z (choose n k * choose (2 * n - 2 * k) n) in
-      let t := (factor * qpow x (Z.to_nat ((n - 2 * k) / 2)))%Q in
-      if k mod 2 =? 0 then t else (- t)%Q) (range (n / 2 + 1)) in
-  (fold_left Qplus terms 0%Q * qpow (1 # 2) (Z.to_nat n))%Q.
+  (fold_left Qplus (map (fun ce => (inject_Z (fst ce) * qpow x (snd ce))%Q) (pn_coeffs n)) 0%Q
+   * qpow (1 # 2) (Z.to_nat n))%Q.
